@@ -8,3 +8,11 @@ Definition c03_classification_mismatches : list mismatch :=
   classification_mismatches cpp_classification py_classification py_command_messages py_response_messages.
 Definition c03_registry_mismatches : list mismatch :=
   registry_mismatches cpp_messages py_classes py_registry.
+
+(* the same comparisons on the tables read again after the library has been used in the same interpreter *)
+Definition c03_enum_mismatches_after : list mismatch :=
+  enums_mismatches enum_pairing exc_cpp_only exc_py_only exc_renamed cpp_enums py_enums_after.
+Definition c03_classification_mismatches_after : list mismatch :=
+  classification_mismatches cpp_classification py_classification_after py_command_messages_after py_response_messages_after.
+Definition c03_registry_mismatches_after : list mismatch :=
+  registry_mismatches cpp_messages py_classes_after py_registry_after.
